@@ -38,13 +38,14 @@ def main(argv):
                                                'ports': {'p': [['w', 'none'], ['w', 'all']], 'r': [['w', 'none' if rsem == 'all' else 'all'], ['w', rsem]],
                                                          'mc': ['api', 'Claim', ['Ok'], 'Release']}}})
     cases += SR.prefix_name_cases()       # port names that are prefixes of each other around the multi-client port
+    cases += SR.many_cases()[1:]          # twelve ports, eleven events per direction
     cases += SR.mixed_semantics_cases()   # semantics alternating in declaration order; an injected port that needs no semantics
     suspects, breadth = SR.leg_a_suspects(rng, 100 if tier == 'quick' else 1000, want=None)
     rep.extra['cases_compared_with_the_model_only'] = breadth
     cases += suspects
     io, mo, plans = SR.tie_and_plans(cases)
     wd = legb.Workdir()
-    nv = 0
+    nv = nfail = 0
     try:
         jobs = []
         for ci, (c, i, m, pl) in enumerate(zip(cases, io, mo, plans)):
@@ -102,8 +103,9 @@ def main(argv):
                         problem = f'{label} was left unbound, but FinalConstruct returned normally: {lines[:2]}'
             if not problem and tp:
                 problem, failing = f'correspondence legA:Builder.build broken (compiled behaviour still as demanded): {tp}', False
-            if problem and nv < 5:
+            if problem and (nv < 5 or (failing and nfail < 3)):
                 nv += 1
+                nfail += 1 if failing else 0
                 rep.violation(problem, {'file': c['file'], 'configuration': c['cfg']}, failing_input=failing)
         rep.extra['compiled'] = len(results)
     finally:
